@@ -182,7 +182,12 @@ def encode_sequence(content, error=None, version=None, mode=None, mask=None,
         content = str(content)
     if symbol_count is not None and len(content) < symbol_count:
         raise ValueError(f'The content is not long enough to be divided into {symbol_count} symbols')
-    sa_parity_data = calc_structured_append_parity(content)
+    # All symbols must use the encoding of the complete message
+    if mode == consts.MODE_HANZI:
+        encoding = consts.HANZI_ENCODING
+    elif encoding is None:
+        encoding = segments[0].encoding
+    sa_parity_data = calc_structured_append_parity(content, encoding)
     num_symbols = symbol_count or 16
     if version is not None:
         num_symbols = number_of_symbols_by_version(content, version, error, mode)
@@ -1425,22 +1430,17 @@ def calc_matrix_size(ver):
     return ver * 4 + 17 if ver > 0 else (ver + 4) * 2 + 9
 
 
-def calc_structured_append_parity(content):
+def calc_structured_append_parity(content, encoding=None):
     """\
     Calculates the parity data for the Structured Append mode.
 
-    :param str content: The content.
+    :param content: The content.
+    :type content: str, bytes, or int
+    :param encoding: The encoding of the message or ``None``
     :rtype: int
     """
-    if not isinstance(content, str):
-        content = str(content)
-    try:
-        data = content.encode('iso-8859-1')
-    except UnicodeError:
-        try:
-            data = content.encode('shift-jis')
-        except (LookupError, UnicodeError):
-            data = content.encode('utf-8')
+    # XOR of the bytes of the message as they are encoded into the symbols
+    data = data_to_bytes(content, encoding)[0]
     return reduce(xor, data)
 
 
